@@ -469,7 +469,7 @@ class Plane:
                 phasor = Field(data=amp*np.exp(2*np.pi*1j*opd/wavefront.wavelength),
                                pixelscale=self.pixelscale,
                                offset=lentil.helper.slice_offset(s, self.shape),
-                               tilt=[self.tilt[n]] if self.tilt else [])
+                               tilt=self.tilt[n::self.size])
 
                 res = field * phasor
                 if res.size > 0:
